@@ -135,4 +135,39 @@ pub fn family<'s>(acc: &mut Acc, words: &'s [String]) {
             compare(acc, "fixed count, ranged repetition configured from context vs static bounds", &forms, words);
         }
     }
+    // 3. every pair of bounds, also contradictory ones (at_least > at_most: whatever the statically configured
+    //    parser does with them, the parser configured with the same settings must do the same)
+    {
+        for lo in 0..4usize {
+            for hi in 0..4usize {
+                let item = || just::<_, &str, E>("bé").or(just("b"));
+                let item_n = || just::<_, &str, EN>("bé").or(just("b"));
+                let rest = || any::<&str, E>().repeated().collect::<String>();
+                let rest_n = || any::<&str, EN>().repeated().collect::<String>();
+                let forms: Vec<(&str, B<'s, '_>)> = vec![
+                    ("the statically configured parser", item().repeated().at_least(lo).at_most(hi).collect::<Vec<&str>>().then(rest()).map(r).boxed()),
+                    ("configure(at_least, at_most) with constants", item().repeated().configure(move |cfg, _: &()| cfg.at_least(lo).at_most(hi)).collect::<Vec<&str>>().then(rest()).map(r).boxed()),
+                    ("static at_most, configured at_least", item().repeated().at_most(hi).configure(move |cfg, _: &()| cfg.at_least(lo)).collect::<Vec<&str>>().then(rest()).map(r).boxed()),
+                    ("static at_least, configured at_most", item().repeated().at_least(lo).configure(move |cfg, _: &()| cfg.at_most(hi)).collect::<Vec<&str>>().then(rest()).map(r).boxed()),
+                    ("try_configure(at_least, at_most)", item().repeated().try_configure(move |cfg, _: &(), _| Ok(cfg.at_least(lo).at_most(hi))).collect::<Vec<&str>>().then(rest()).map(r).boxed()),
+                    (
+                        "bounds taken from the context (with_ctx)",
+                        item_n().repeated().configure(move |cfg, n: &usize| cfg.at_least(*n / 4).at_most(*n % 4)).collect::<Vec<&str>>().then(rest_n()).map(r).with_ctx(lo * 4 + hi).boxed(),
+                    ),
+                ];
+                compare(acc, "item.repeated() with every pair of bounds in 0..4 (incl. at_least > at_most), collected, then rest", &forms, words);
+                let forms: Vec<(&str, B<'s, '_>)> = vec![
+                    ("the statically configured parser", item().repeated().at_least(lo).at_most(hi).to_slice().then(rest()).map(r).boxed()),
+                    ("configure(at_least, at_most) with constants", item().repeated().configure(move |cfg, _: &()| cfg.at_least(lo).at_most(hi)).to_slice().then(rest()).map(r).boxed()),
+                    ("bounds taken from the context (with_ctx)", item_n().repeated().configure(move |cfg, n: &usize| cfg.at_least(*n / 4).at_most(*n % 4)).to_slice().then(rest_n()).map(r).with_ctx(lo * 4 + hi).boxed()),
+                ];
+                compare(acc, "item.repeated() with every pair of bounds in 0..4 as a unit parser under to_slice, then rest", &forms, words);
+                let forms: Vec<(&str, B<'s, '_>)> = vec![
+                    ("the statically configured parser", item().repeated().at_least(lo).at_most(hi).count().then(rest()).map(r).boxed()),
+                    ("configure(at_least, at_most) with constants", item().repeated().configure(move |cfg, _: &()| cfg.at_least(lo).at_most(hi)).count().then(rest()).map(r).boxed()),
+                ];
+                compare(acc, "item.repeated() with every pair of bounds in 0..4, count(), then rest", &forms, words);
+            }
+        }
+    }
 }
